@@ -123,6 +123,9 @@ var c04Inputs = []string{
 	// an impure callee that fails (reads mutable state / a counter), the error caught by an otherwise pure caller
 	"xq = 0; func gq() { if xq == 0 { error(\"zero\") } else { xq } }; func fq() { catch(gq()).err }; println(fq())", "xq = 1; println(fq())", "xq = 0; println(fq(), fq())",
 	"func gr() { if verif_counter() % 2 == 0 { error(\"even\") } else { 1 } }; func fr() { catch(gr()).err }; println(fr(), fr(), fr(), fr())",
+	// a factory of closures over its own variables: every call makes a new one
+	"func counter(s) { c = s; () => { c = c + 1; c } }; ct = [counter(0), counter(0)]; println([ct[0](), ct[0](), ct[1]()])", "cn = counter(0); println(cn(), cn(), counter(0)())",
+	"func pairc(s) { c = s; [() => { c = c + 1; c }, 5] }; pa = pairc(0); pb = pairc(0); println([pa[0](), pa[0](), pb[0]()])",
 	// functions made by another interpreter state: same text, different globals
 	"ua = unjson(\"N=1; ()=>N\"); ub = unjson(\"N=2; ()=>N\"); println(ua(), ub(), ua())",
 }
